@@ -10,6 +10,7 @@ TRUSTED = ['declared words/synsets and ILI sharing are computed from the generat
 def tweak(rng, u):
     for c in u['configs']:
         c.setdefault('expand', '')
+    u['interleave'] = True      # default-mode navigation between the adds
 
 
 def run(rep, tier, build, replay=None):
